@@ -235,6 +235,42 @@ def run(tier='quick', seed=0, only=None, verbose=False):
             rep.inconcl(dict(key=job['key'], **{k: str(x)[:300] for k, x in i.items()}))
         if verbose:
             print(job['key'], [o['verdict'] for o in r['obligations']][:12])
+    # "sample k is the value used during integration step k" also depends on the kernel: each backend's fixed-step kernel
+    # must hand the step counter k (the index of the input sample) to the vector field at step k, also when only every
+    # store-th row is kept (harness of C03: uninterpreted, time-dependent vector field)
+    from . import c03
+    kj = []
+    for steps, store in ((6, 2), (9, 3)) if tier == 'quick' else ((6, 2), (9, 3), (8, 2), (8, 4), (5, 1)):
+        for backend, heuns, t0 in (('base', (False, True), 0), ('torch', (False,), 0), ('jax', (False, True), 0)):
+            for heun in heuns:
+                kj.append(dict(kind='kernel', backend=backend, heun=heun, steps=steps, store=store, rem=0, n=1, t0=t0,
+                               key=f"step-counter:{backend}:{'heun' if heun else 'euler'}:steps={steps}:store={store}"))
+    if only:
+        kj = [j for j in kj if only in j['key']]
+    alias = {}
+    if kj:
+        for pj, outc in runner.run_jobs(c03._alias_job, [dict(key=f"alias:{b}", backend=b) for b in ('base', 'torch', 'jax')],
+                                        timeout=300):
+            if outc['ok']:
+                alias[pj['backend']] = outc['result']
+            else:
+                rep.harness_error(f"{pj['key']}: {outc['error']}")
+    for j in kj:
+        j['alias'] = alias.get(j['backend'])
+    for job, outc in runner.run_jobs(c03.kernel_job, kj, timeout=600):
+        if not outc['ok']:
+            rep.harness_error(f"{job['key']}: {outc['error']} {outc.get('tb', '')[-400:]}")
+            continue
+        r = outc['result']
+        rep.add_stats(outc['stats'])
+        rep.add_tally(r['tally'])
+        rep.program(job['key'], nontrivial=bool(r['tally']['obligations']))
+        for v in r['violations']:
+            rec = dict(property='C08', key=job['key'], job={k: str(x) for k, x in job.items()}, **v)
+            rec['what'] = f"{job['key']}: {v['what']}"
+            rep.violation(rec, findings.attribute('C08', job, rec))
+        for i in r['inconclusive']:
+            rep.inconcl(dict(key=job['key'], **{k: str(x)[:200] for k, x in i.items()}))
     return rep.finish(rule='program = (circuit, target path, input shape, N, fixed/adaptive, vectorize); fixed step: one '
                            'obligation per state variable and step k < N; adaptive: one obligation per state variable '
                            'over symbolic t in [0,T] against the interpolant on the grid j*T/(N-1)')
